@@ -769,7 +769,7 @@ func (x *runner) reloadCase(seed uint64) {
 		case k == 4:
 			// a null slack item completed by the global block: valid; LoadFile walks every item (resolveFilepaths)
 			x.run.Count("reload_step", "good-with-null-slack-item")
-			os.WriteFile(path, []byte(fmt.Sprintf("global: {slack_api_url: 'https://h.example/x'}\nroute: {receiver: cfg-%d}\nreceivers: [{name: cfg-%d, slack_configs: [null], opsgenie_configs: [{api_key: k}, null]}]\n", id, id)), 0o644)
+			os.WriteFile(path, []byte(fmt.Sprintf("global: {slack_api_url: 'https://h.example/x', opsgenie_api_key: k}\nroute: {receiver: cfg-%d}\nreceivers: [{name: cfg-%d, slack_configs: [null], opsgenie_configs: [{api_key: k}, null]}]\n", id, id)), 0o644)
 		case k == 5:
 			kind = "missing-file"
 			os.Remove(path)
